@@ -3,7 +3,7 @@ from core import report
 from core.report import Rule
 from core.sm9 import Repo
 from core.terms import strip, show
-from . import shared, field, conv2, norm
+from . import shared, field, conv2, norm, ladder
 
 LADDERS = [("crate::fields::FieldElement::pow", "one", "squared", "mul_assign")]
 
@@ -35,7 +35,7 @@ def run(ctx):
     r_lay, _ = conv2.rule_layout("C11", repo, conv2.make_conv(repo), ["crate::fields::fq2::Fq2::to_slice", "crate::fields::fq4::Fq4::to_slice", "crate::fields::fq12::Fq12::to_slice", "crate::Gt::to_slice"])
     N = norm.Norm(repo)
     rules = [shared.rule_eq_derived(repo, ["crate::Gt", "crate::fields::fq12::Fq12", "crate::fields::fq4::Fq4", "crate::fields::fq2::Fq2", "crate::fields::fp::Fq", "crate::u256::U256"]),
-             r_lay, shared.rule_red(repo), rule_gt_forward(repo), field.rule_tower_consts("C11", repo), field.rule_zero_cover("C11", repo), field.rule_tower_shapes("C11", repo), field.rule_ladder("C11", repo, LADDERS), field.rule_bits("C11", repo),
+             r_lay, shared.rule_red(repo), rule_gt_forward(repo), field.rule_tower_consts("C11", repo), field.rule_zero_cover("C11", repo), field.rule_tower_shapes("C11", repo), ladder.rule_ladder("C11", repo, LADDERS), field.rule_bits("C11", repo),
              field.rule_ops_forward("C11", repo, ["crate::fields::fq12::Fq12", "crate::fields::fq4::Fq4"])]
     return report.emit(
         "C11", ctx.tier, ctx.seed, rules, ctx.started,
